@@ -351,6 +351,8 @@ def lib_adapter(which, config):
         outs = {"w_rdy": dut.w_rdy, "r_rdy": dut.r_rdy, "r_data": dut.r_data, "r_level": dut.r_level, "w_level": dut.w_level}
 
         def tr(st):
+            if st["k"] == "rst":
+                return ("drive", {} if config["w_reset_less"] else {"write.rst": st["l"]})
             return ("set", st["v"]) if st["k"] == "set" else ("drive", {k + ".clk": v for k, v in st["l"].items()})
     elif which == "C18":
         # I/O buffers on composed simulation ports: per-bit inversion, one register stage per direction, tristate loop-back
